@@ -25,7 +25,7 @@ INTEGRATE_KEYS = [
 DEFAULT_WEIGHTS = {
     "root": 2.0, "slice": 2.0, "multiply": 5.0, "product": 1.5, "get_density": 2.0, "normalize": 1.0,
     "marginal": 1.0, "linear_sum": 0.7, "condition_on": 1.2, "cond_x": 1.5, "set_y": 1.2, "affine": 3.0,
-    "update": 1.0, "update_sigma": 0.5, "obs": 6.0, "truncate": 0.8, "copy": 0.6,
+    "update": 1.0, "update_sigma": 0.5, "obs": 6.0, "truncate": 0.8, "copy": 0.6, "replace": 1.0,
 }
 
 
@@ -237,7 +237,7 @@ class Gen:
         return {"op": "marginal", "a": s.id, "dims": self.r.perm(s.D)[:k], "out": self.nid()}
 
     def g_linear_sum(self):
-        s = self.pick(("pdf",), lambda s: s.cls == "GaussianPDF")
+        s = self.pick(("pdf",))
         if s is None:
             return None
         r = self.r
@@ -351,6 +351,39 @@ class Gen:
             return None
         return {"op": "copy", "a": s.id, "how": self.r.wchoice(["copy", "deepcopy", "pickle"], [3, 1, 1]), "out": self.nid()}
 
+    def g_replace(self):
+        r = self.r
+        s = self.pick(pred=lambda s: s.kind != "trunc" and s.u is None and s.cls not in IDENT and s.cls != "LSEMGaussianConditional")
+        if s is None:
+            return None
+        o = s.obj
+        if s.kind == "pdf":
+            field, val = "mu", r.normal((s.R, s.D), 1.2)
+        elif s.kind == "measure":
+            field = r.choice(["nu", "ln_beta"])
+            val = r.normal((s.R, s.D)) if field == "nu" else r.normal((s.R,))
+        elif s.cls == "ConjugateFactor":
+            field = r.choice(["nu", "ln_beta", "Lambda"])
+            val = {"nu": lambda: r.normal((s.R, s.D)), "ln_beta": lambda: r.normal((s.R,)),
+                   "Lambda": lambda: r.spd(s.R, s.D, self.cfg["cond_max"])}[field]()
+        elif s.cls == "OneRankFactor":
+            field = r.choice(["v", "g", "nu", "ln_beta"])
+            val = {"v": lambda: r.normal((s.R, s.D)), "g": lambda: r.uniform(0.1, 2.5, (s.R,)),
+                   "nu": lambda: r.normal((s.R, s.D)), "ln_beta": lambda: r.normal((s.R,))}[field]()
+        elif s.cls == "LinearFactor":
+            field = r.choice(["nu", "ln_beta"])
+            val = r.normal((s.R, s.D)) if field == "nu" else r.normal((s.R,))
+        elif s.cls == "ConstantFactor":
+            field, val = "ln_beta", r.normal((s.R,))
+        elif s.kind == "cond":
+            fields = ["M", "b"] + (["A", "W"] if s.cls in model.HETERO else [])
+            field = r.choice(fields)
+            cur = ref.A(getattr(o, field))
+            val = cur + r.normal(cur.shape, 0.3) if field != "A" else cur * r.uniform(0.7, 1.3, cur.shape)
+        else:
+            return None
+        return {"op": "replace", "a": s.id, "field": field, "value": np.asarray(val, dtype=np.float64), "out": self.nid()}
+
     def g_truncate(self):
         r = self.r
         m = self.pick(("measure", "pdf"), lambda s: s.D == 1)
@@ -367,10 +400,18 @@ class Gen:
         # limits stay within a few standard deviations of the mode: far-tail cdf differences cancel
         lo = mu + sd * r.uniform(-2.5, 0.5, (m.R,))
         hi = lo + sd * r.uniform(0.7, 3.0, (m.R,))
-        side = r.wchoice(["both", "lower", "upper"], [3, 1, 1])
+        side = r.wchoice(["both", "lower", "upper", "mixed"], [3, 1, 1, 2])
+        if side == "mixed":
+            # per-component limits: some components one-sided (infinite limit), others two-sided
+            for k in range(m.R):
+                u = r.g.random()
+                if u < 0.3:
+                    lo[k] = -np.inf
+                elif u < 0.6:
+                    hi[k] = np.inf
         rec = {"op": "truncate", "a": m.id, "pdf": r.coin(0.4), "out": self.nid(),
-               "lower": lo[:, None] if side in ("both", "lower") else None,
-               "upper": hi[:, None] if side in ("both", "upper") else None}
+               "lower": lo[:, None] if side in ("both", "lower", "mixed") else None,
+               "upper": hi[:, None] if side in ("both", "upper", "mixed") else None}
         return rec
 
     # observers
@@ -378,11 +419,16 @@ class Gen:
         r = self.r
         K, L, M = (r.integers(1, 3) for _ in range(3))
 
+        # per_component: False (all shared), True (all per component), "mat" (matrices per component, vectors
+        # shared), "vec" (vectors per component, matrices shared) - all documented coefficient layouts
+        pm = per_component in (True, "mat")
+        pv = per_component in (True, "vec")
+
         def mat(k):
-            return r.normal((R, k, D) if per_component else (k, D), 0.8)
+            return r.normal((R, k, D) if pm else (k, D), 0.8)
 
         def vec(k):
-            return r.normal((R, k) if per_component else (k,), 0.8)
+            return r.normal((R, k) if pv else (k,), 0.8)
 
         if key in ("1", "x", "xx'"):
             return {}
@@ -399,7 +445,7 @@ class Gen:
         if key == "x(A'x + a)x'":
             return {"A_mat": mat(1), "a_vec": vec(1)}
         if key == "xb'xx'":
-            return {"b_vec": r.normal((R, D) if per_component else (D,), 0.8)}
+            return {"b_vec": r.normal((R, D) if pv else (D,), 0.8)}
         if key == "(Ax+a)'(Bx+b)(Cx+c)'(Dx+d)":
             return {"A_mat": mat(K), "a_vec": vec(K), "B_mat": mat(K), "b_vec": vec(K),
                     "C_mat": mat(L), "c_vec": vec(L), "D_mat": mat(L), "d_vec": vec(L)}
@@ -459,7 +505,7 @@ class Gen:
             rec["ew"] = ew
         elif name == "integrate":
             rec["key"] = r.choice(INTEGRATE_KEYS)
-            rec["kw"] = self.coefs(rec["key"], s.D, s.R, per_component=r.coin(0.3))
+            rec["kw"] = self.coefs(rec["key"], s.D, s.R, per_component=r.wchoice([False, True, "mat", "vec"], [5, 2, 1.5, 1.5]))
         elif name == "integrate_log":
             f = self.pick(("factor", "measure", "pdf"), lambda t: t.D == s.D and t.R in (1, s.R))
             if f is None:
@@ -562,7 +608,7 @@ class Gen:
                 self.emit({"op": "obs", "a": s.id, "name": "log_integral"})
                 key = r.choice(INTEGRATE_KEYS)
                 self.emit({"op": "obs", "a": s.id, "name": "integrate", "key": key,
-                           "kw": self.coefs(key, s.D, s.R, per_component=r.coin(0.3))})
+                           "kw": self.coefs(key, s.D, s.R, per_component=r.wchoice([False, True, "mat", "vec"], [5, 2, 1.5, 1.5]))})
         return self.records
 
 
